@@ -301,8 +301,11 @@ bool World::op_net(std::string const& ctx, toks const& op)
 			auto st = N.tcp.find(op.at(1));
 			if (st == N.tcp.end() || !st->second) { res("skipped"); return true; }
 			std::string h = op.at(2);
-			N.peer_ep.push_back(std::make_shared<ip::tcp::endpoint>());
-			ip::tcp::endpoint* pep = N.peer_ep.back().get();
+			// the endpoint out-parameter must outlive both the handler (an aborted handler
+			// still prints it) and the acceptor (which may write to it late): owned by the
+			// handler and by the world
+			auto pep = std::make_shared<ip::tcp::endpoint>();
+			N.peer_ep.push_back(pep);
 			{
 				api_scope2 g(*this);
 				a.async_accept(*st->second, *pep, [this, h, pep](error_code const& e)
